@@ -27,6 +27,15 @@ def plan(tier, seed):
     return sp + realwork.shards('C13', tier)
 
 
+def _multi(scen, year, key):
+    """A filer with two copies of every kind of statement (an interview can be interrupted in the middle of any of them)."""
+    p = scen.plain_persona(year, 'MFJ', [52000.0, 31000.0], key=key, n_int=2, ints=[{'box_1': 300.0 + 10 * j, 'box_3': 0.0, 'box_4': 0.0, 'box_6': 0.0, 'box_8': 0.0, 'box_2': 0.0} for j in range(2)],
+                           n_div=2, divs=[{'box_1a': 200.0 + j, 'box_1b': 50.0, 'box_2a': 0.0, 'box_4': 0.0, 'box_5': 0.0, 'box_7': 0.0, 'box_16_1': 0.0} for j in range(2)],
+                           n_1099g=2, f1099g=[{'box_2': 120.0 + j, 'box_1': 0.0, 'box_4': 0.0, 'box_11_1': 0.0, 'box_10a_1': ''} for j in range(2)],
+                           n_1098=2, f1098=[{'box_1': 2500.0 + j, 'box_6': 0.0, 'box_4': 0.0, 'box_5': 0.0} for j in range(2)])
+    return p
+
+
 def run_cli_history(spec, tier, seed):
     """The same history through the real CLI: run 1 `solve --prompt-missing
     --writeback-input --solution s1` from an (almost) empty file, run 2 on the
@@ -43,19 +52,27 @@ def run_cli_history(spec, tier, seed):
     lookup = c20.InputLookup(year)
     for k in range(spec['n']):
         fam = spec['families'][k % len(spec['families'])]
-        p = scen.Persona(year, fam, f'c13cli:{seed}:{k}')
+        multi = (k % 4 == 3)           # every fourth history: the filer with two copies of everything, resumed from a partly filled file
+        p = scen.Persona(year, fam, f'c13cli:{seed}:{k}') if not multi else _multi(scen, year, f'c13cli:{seed}:{k}')
         tmp = tempfile.mkdtemp(prefix='hv_c13_')
         try:
             path = os.path.join(tmp, 'in.ini')
             s1, s2 = os.path.join(tmp, 's1.ini'), os.path.join(tmp, 's2.ini')
             if k % 2 == 1:
                 # a nearly complete file: every section is there already, only a few values are missing
-                p0 = scen.Persona(year, fam, f'c13cli:{seed}:{k}')
+                p0 = scen.Persona(year, fam, f'c13cli:{seed}:{k}') if not multi else _multi(scen, year, f'c13cli:{seed}:{k}')
                 scen.solve_persona(p0)
                 full = dict(p0.answers)
                 rng_ = __import__('random').Random(f'{seed}:{k}:{year}')
                 cand = [q for q in sorted(full) if sum(1 for q2 in full if q2.split('.')[0] == q.split('.')[0]) > 2]
                 drop = set(rng_.sample(cand, min(len(cand), rng_.randint(1, 4))))
+                # an interview interrupted in the middle of a statement: of every kind of statement with several copies, the
+                # FIRST copy lacks its later boxes while the other copies are complete
+                secs_ = sorted({q.split('.')[0] for q in full})
+                for base_ in sorted({s_.split(':')[0] for s_ in secs_ if ':' in s_}):
+                    if f'{base_}:0' in secs_ and f'{base_}:1' in secs_:
+                        keys0 = sorted(q for q in full if q.split('.')[0] == f'{base_}:0')
+                        drop |= set(keys0[len(keys0) // 2:][:3])
                 c20.write_ini(path, {q: v for q, v in full.items() if q not in drop})
                 # option names are case-insensitive in the input file: a user may well write Filing_Status or BOX_1
                 kept = [q for q in sorted(full) if q not in drop]
@@ -69,11 +86,17 @@ def run_cli_history(spec, tier, seed):
                         opt = line.split(' =', 1)[0]
                         if f'{sec_}.{opt}' in recase:
                             line = (opt.upper() if len(lines_) % 2 else opt.capitalize()) + line[len(opt):]
+                        if f'{sec_}.{opt}' in ('1040.home_address', 'w-2:0.box_c') and line.split(' =', 1)[1].strip():
+                            # a value that runs over several lines (indented continuation lines, as the INI syntax has it)
+                            line = line + '\n    Building B, 2nd floor\n    c/o: the caretaker = nobody'
+                            res.count('cli_histories_with_multi_line_value')
                     lines_.append(line)
                 with open(path, 'w') as fh:
                     fh.write('\n'.join(lines_) + '\n')
                 supplied_lower = {q.lower() for q in kept}
-                p = scen.Persona(year, fam, f'c13cli:{seed}:{k}', overrides=full)
+                p = scen.Persona(year, fam if not multi else 'F0', f'c13cli:{seed}:{k}', overrides=full)
+                if multi:
+                    p.nc = False
                 res.count('cli_histories_from_nearly_complete_file')
             current = {}
             orig_prompt = hx.habutax.prompt_input
@@ -108,6 +131,9 @@ def run_cli_history(spec, tier, seed):
                 hx.habutax.prompt_input = orig_prompt
             res.evaluations += 1
             res.count('cli_histories')
+            if isinstance(r1.exc, c20.RunawayPrompt):
+                res.violation('C13|cli|asks-the-same-input-again-and-again', f'{year} {fam}: {r1.exc}', {'engine': 'cli-history', 'persona': p.describe(), 'shard': spec})
+                continue
             if k % 2 == 1:
                 again = [nm for nm, t in given if nm and nm.lower() in supplied_lower]
                 if again:
